@@ -111,7 +111,7 @@ pub fn replay(a: &Args) {
             continue;
         }
         if let (Some(t), Some(e)) = (renders.as_mut(), root.as_ref()) {
-            let mut opts = crate::render::option_tuples(&mut r, extra);
+            let mut opts = crate::render::option_tuples_for(&mut r, extra, e);
             if a.get("opts").as_deref() == Some("two") {
                 opts = vec![opts.remove(0), opts.remove(2)];
             }
@@ -219,8 +219,30 @@ pub fn record(a: &Args) {
         }
         let nops = 1 + r.below(maxops);
         let mut ops = vec![first];
+        // mode "paths": the tree is the union of a few root-to-leaf paths that end in the same name and share parts of
+        // their ancestor chains — the input space of the struct-name qualification (compute_name_hints)
+        let mut planned: Vec<Value> = Vec::new();
+        if a.get("mode").as_deref() == Some("paths") {
+            let leaf = names[r.below(names.len())].clone();
+            let k = 2 + r.below(4);
+            for _ in 0..k {
+                let len = 1 + r.below(5);
+                let mut path: Vec<String> = Vec::new();
+                for d in 0..len {
+                    let nm = if d + 1 == len { leaf.clone() } else { names[r.below(names.len())].clone() };
+                    planned.push(json!({"op": "add", "path": path.iter().map(|p| crate::render::chars(p)).collect::<Vec<_>>(),
+                                        "name": crate::render::chars(&nm), "attrs": if r.chance(1, 3) { json!([crate::render::chars("p")]) } else { json!([]) }}));
+                    path.push(nm);
+                }
+            }
+            planned.reverse();
+        }
+        let nops = if planned.is_empty() { nops } else { planned.len() };
         for _ in 0..nops {
-            let op = random_op(&mut r, root.as_ref().unwrap(), &names, &attrs, &kinds);
+            let op = match planned.pop() {
+                Some(op) => op,
+                None => random_op(&mut r, root.as_ref().unwrap(), &names, &attrs, &kinds),
+            };
             let before = crate::render::view_chars(&root.as_ref().unwrap().verif_view());
             let res = std::panic::catch_unwind(std::panic::AssertUnwindSafe(|| {
                 let mut rr = root.take();
@@ -244,7 +266,7 @@ pub fn record(a: &Args) {
             }
         }
         if let (Some(t), Some(e)) = (renders.as_mut(), root.as_ref()) {
-            let mut opts = crate::render::option_tuples(&mut r, extra);
+            let mut opts = crate::render::option_tuples_for(&mut r, extra, e);
             if a.get("opts").as_deref() == Some("two") {
                 opts = vec![opts.remove(0), opts.remove(2)];
             }
